@@ -322,3 +322,26 @@ func SnapNestedFieldStore(x int) int {
 	c, r := snapNestedField(x)
 	return c.tag.id*7 + r
 }
+
+// ---- a struct key with tail padding: == keys built separately address one entry ----
+
+type padKey struct {
+	id  int64
+	tag int8
+}
+
+func mkPadKey(a int64, b int8) padKey { return padKey{a, b} }
+
+func MapPaddedKey(a int64, b int8) int {
+	m := map[padKey]int{}
+	m[padKey{a, b}] = 7
+	k := mkPadKey(a, b)
+	v, ok := m[k]
+	m[mkPadKey(a, b)] = 9
+	r := len(m)*100 + v
+	if ok {
+		r += 1000
+	}
+	delete(m, k)
+	return r + len(m)*10
+}
